@@ -9,7 +9,7 @@ THEOREMS = {
         "Dawgs.C02.Props.count_fast_path_preserves", "Dawgs.C02.Props.count_fast_path_hyp_none", "Dawgs.C02.Props.count_fast_path_hyp_kinds",
         "Dawgs.C02.Props.aggregate_helper_tie", "Dawgs.C02.Props.depth_guard_tie", "Dawgs.C02.Props.agg_count_depth_preserves",
         "Dawgs.C02.Props.agg_count_depth_needs_guard", "Dawgs.C02.Props.alias_declaration_tie", "Dawgs.C02.Props.collect_id_lowering_blocked_by_reprojection",
-        "Dawgs.C02.Props.collect_id_by_symbol_differs", "Dawgs.C02.Props.countWhere_ok", "Dawgs.C02.Props.trVariant_cases", "Dawgs.C02.Props.opt_equiv", "Dawgs.C02.Props.opt_equiv_default",
+        "Dawgs.C02.Props.collect_id_by_symbol_differs", "Dawgs.C02.Props.countWhere_ok", "Dawgs.C02.Props.ofCyChain_wf", "Dawgs.C02.Props.hop_not_chain", "Dawgs.C02.Props.count_readings", "Dawgs.C02.Props.trVariant_cases", "Dawgs.C02.Props.opt_equiv", "Dawgs.C02.Props.opt_equiv_default",
     ],
 }
 
@@ -64,7 +64,15 @@ def classify(op, impl, verdict):
     m = re.search(r" rules-only-differs=(\w+) lowerings-only-differs=(\w+)", verdict)
     rules, lows = sorted(_names(impl, "rules")), _names(impl, "lowerings")
     if m and m.group(1) == "true" and m.group(2) == "false":
-        return "rule:" + ("+".join(rules) or "none")
+        cls = "rule:" + ("+".join(rules) or "none")
+        if "InboundTraversalReversal" in rules:
+            # the reversal rule changes the drive direction of a pattern; whether a PATH of that pattern is observed, and how it reaches the
+            # projection, is the enabling shape (a registered finding about a renamed path must not cover a path that is returned directly)
+            import cyshape
+            feats = cyshape.features(_query(op))
+            if "path-variable-renamed-in-with" in feats:
+                cls += ":path-variable-renamed-in-with"
+        return cls
     q = _query(op).lower()
     for name in _PRIORITY:
         if name in lows:
@@ -175,7 +183,7 @@ SPEC = {
     "regen": do_regen,
     "lean_modules": ["Dawgs.Props.C02"],
     "theorems_by_module": THEOREMS,
-    "gate_modules": ["Dawgs.Model.C01", "Dawgs.Model.C01S2", "Dawgs.Model.C02", "Dawgs.Proofs.C02", "Dawgs.Props.C02"],
+    "gate_modules": ["Dawgs.Model.C01", "Dawgs.Model.C01S2", "Dawgs.Model.C01Chain", "Dawgs.Model.C01Count", "Dawgs.Model.C02", "Dawgs.Proofs.C02", "Dawgs.Props.C02"],
     "suites": [{"name": "c02", "model_suite": "c02sem", "model_input": model_input, "impl_view": impl_view, "model_view": model_view,
                 "judge": judge, "keep_prefix": 1, "thorough_seeds": 1}],
     "nontrivial": nontrivial,
@@ -184,7 +192,8 @@ SPEC = {
     "panic_is_violation": False,
     "rule": "cases = one hand-written query per rewrite rule / lowering + FOCUSED FAMILIES (harness/focused.go: variable-length step + fixed hops with every subset of the suffix nodes "
             "already bound; aggregate-only RETURN incl. collect / size(collect()) with LIMIT and no ORDER BY; the aggregate-traversal-count shape with every range form incl. *0..; "
-            "collect(node) AS xs used under IN with every way of reading xs afterwards; bindings read by later clauses) + FRAGMENT queries (the generators of C01's tie: stage S1, stage S2b (one hop with WHERE), and `MATCH (n[:K...]) RETURN count(n)`; for these the driver also "
+            "collect(node) AS xs used under IN with every way of reading xs afterwards; bindings read by later clauses; named path + pattern predicate over reversible patterns with the path / "
+            "nodes(p) / relationships(p) observed directly and through WITH; string predicates with backslash / % / _ / quote literals) + FRAGMENT queries (the generators of C01's tie: stage S1, stage S2b (one hop with WHERE), stage S2c (chains), and `MATCH (n[:K...]) RETURN count(n)`; for these the driver also "
             "compares both REAL statements with the model variants trVariant of opt_equiv (either join order of a hop) — outcome frag-tie, a difference is a VIOLATION even when the evaluations agree) + every Cypher text of the repository corpora the translator accepts + structured random queries "
             "(levels 1-5, splitmix64(VERIF_SEED)); each is translated twice by the REAL translator: `Translate` (optimised) and the verif-tagged hook `TranslateUnoptimized` "
             "(hooks/C02.patch: no rewrite rule, no lowering plan, no fast path), plus rules-only / lowerings-only variants to attribute a difference. Both statements are evaluated by "
@@ -224,12 +233,12 @@ MANIFEST = {
             "they are. count_fast_path_preserves — under Sql.eval on every encoded graph, `select count(*) from node [where kind_ids @> …]` returns the same single row as the unoptimised two-frame "
             "statement (tied to the real statement pair by count_fast_path_tie on the S-expressions of the corpus case). reversal_preserves — a chain pattern matches a walk iff the reversed pattern "
             "(elements reversed, directions flipped) matches the reversed walk, relationship uniqueness included. reorder_preserves — bag join of independent pattern parts is commutative up to "
-            "permutation. attach_preserves — a conjunct that reads one side of a join may be evaluated before the join. opt_equiv : forall fo fu, C02_full (trVariant fo true) (trVariant fu false) — the full statement's body for every pair of variants of the MODEL "
-            "translator on the proved fragment (trVariant flipOf fastPath = C01's tr2F flipOf on stages S1 and S2b, and the count fragment MATCH (n[:K...]) RETURN count(n) with the "
-            "count-store fast path on / off): for every graph with GraphOK2, whenever both statements evaluate under Sql.eval they return the same bag of rows. Content: (1) a hop "
+            "permutation. attach_preserves — a conjunct that reads one side of a join may be evaluated before the join. opt_equiv : forall fo fu co cu, C02_full (trVariant fo co true) (trVariant fu cu false) — the full statement's body for every pair of variants of the MODEL "
+            "translator on the proved fragment (trVariant flipOf flipCh fastPath = C01's tr4F on stages S1, S1c (MATCH (n[:K...]) [WHERE p] RETURN count(n) [AS c], count-store fast path on / off), S2b and S2c "
+            "(chains of 2-3 hops)): for every graph with GraphOK2, whenever both statements evaluate under Sql.eval they return the same bag of rows. Content: (1) a hop "
             "query may be emitted in either join order by either variant — the lowering TraversalDirectionSelection of the optimised translator vs. the selectivity balance of the "
-            "unoptimised one; the REAL two statements do differ in that order on generated S2b queries — and both orders are permutations of the Cypher result (C01 s2_sound), hence of each "
-            "other; (2) the count-store fast path (count_fast_path_preserves); (3) on S1 the two statements are identical (trVariant_cases). The direction choice itself is not modelled "
+            "unoptimised one; the REAL two statements do differ in that order on generated S2b queries — and both orders are permutations of the Cypher result (C01 s2_sound; chain_sound for the first hop of a chain), hence of each "
+            "other; (2) the count-store fast path against the node frame (C01 count_sound: both return the Cypher count; the fast path is emitted only when the MATCH has no user predicate); (3) on S1 the two statements are identical (trVariant_cases). The direction choice itself is not modelled "
             "(see C01): it is a parameter, the theorem holds for all choices, and the per-run tie frag-tie checks real optimised / unoptimised statement = model statement for one of the two "
             "orders each. NOT PROVED: C02_full for the real translator (all "
             "queries); the other lowerings (late path materialisation, suffix / predicate placement, direction selection, expand-into, exact range, shortest-path strategies, aggregate traversal "
